@@ -7,6 +7,8 @@
   seeded.py check <seeded-dir> [Cxx ...]     run the quick tier of the property's check (default: meta.json 'property')
                                              against the patched worktree through VERIF_REPO; prints exit code and time
 
+  seeded.py stage <agent-out-dir> Cxx k       copy the agent's patch<k>.diff / demo<k>.py / notes<k>.md to seeded/Cxx-m<k>/
+
 The worktree lives under /var/tmp and is removed afterwards.  /repo itself is never modified."""
 
 import json
@@ -137,9 +139,28 @@ def check(d, props):
     return 0
 
 
+def stage(src, prop, k):
+    """copy <src>/patch<k>.diff, demo<k>.py, notes<k>.md to seeded/<prop>-m<k>/"""
+    d = os.path.join(VERIF, "seeded", "%s-m%s" % (prop, k))
+    os.makedirs(d, exist_ok=True)
+    shutil.copy(os.path.join(src, "patch%s.diff" % k), os.path.join(d, "patch.diff"))
+    shutil.copy(os.path.join(src, "demo%s.py" % k), os.path.join(d, "demo.py"))
+    if os.path.exists(os.path.join(src, "notes%s.md" % k)):
+        shutil.copy(os.path.join(src, "notes%s.md" % k), os.path.join(d, "notes.md"))
+    rc, head = sh(["git", "-C", REPO, "rev-parse", "--short", "HEAD"])
+    meta = {"property": prop, "id": "%s-m%s" % (prop, k), "source": "independent agent (property text + scratch worktree only)",
+            "applies_to_repo_commit": head.strip()}
+    with open(os.path.join(d, "meta.json"), "w") as f:
+        json.dump(meta, f, indent=1)
+    print(d)
+    return 0
+
+
 if __name__ == "__main__":
     if len(sys.argv) < 3:
         raise SystemExit(__doc__)
+    if sys.argv[1] == "stage":
+        sys.exit(stage(sys.argv[2], sys.argv[3], sys.argv[4]))
     if sys.argv[1] == "confirm":
         sys.exit(confirm(sys.argv[2], "--suite" in sys.argv))
     if sys.argv[1] == "check":
